@@ -232,7 +232,19 @@ def check_renderer(ctx, cname, rules=("DIMGUARD", "DIST", "SHARP", "SMOOTH", "WI
                                 continue
                             if names_in(tn) & (locals_ - {"self", grid_p, dtype_p}):
                                 continue  # un-substituted twin of a decision
-                            t2 = ttxt.replace("self.interface_width is None", "NN").replace("self.interface_width is not None", "(not NN)")
+                            # a width chosen by a conditional expression inside the test is resolved for this case first
+                            class _Res(ast.NodeTransformer):
+                                def visit_IfExp(self, n_):
+                                    self.generic_visit(n_)
+                                    tt_ = U(n_.test)
+                                    if tt_ == "self.interface_width is None":
+                                        return n_.body if N else n_.orelse
+                                    if tt_ == "self.interface_width is not None":
+                                        return n_.orelse if N else n_.body
+                                    return n_
+
+                            ttxt_r = U(_Res().visit(tn))
+                            t2 = ttxt_r.replace("self.interface_width is None", "NN").replace("self.interface_width is not None", "(not NN)")
                             for w_ in WTXT:
                                 t2 = t2.replace(f"{w_} == 0", "ZZ" if w_ == w_here else "ZOTHER").replace(f"{w_} != 0", "(not ZZ)" if w_ == w_here else "ZOTHER")
                             t2 = t2.replace(f"np.issubdtype({dtype_p}, bool)", "BB").replace(f"numpy.issubdtype({dtype_p}, bool)", "BB")
